@@ -67,6 +67,16 @@ var e2Assumptions = []string{
 }
 
 var props = map[string]prop{
+	"C16": {
+		Parts: []part{
+			{Engine: "E2", Pkg: "sess", Profile: "C16", QuickRuns: 1500, QuickBudgetS: 60, ThoroughRuns: 60000, ThoroughBudgetS: 1200},
+			{Engine: "E2", Pkg: "sess", Profile: "C16", QuickRuns: 500, QuickBudgetS: 40, ThoroughRuns: 20000, ThoroughBudgetS: 600, Env: []string{"GODEBUG=cpu.avx2=off,cpu.avx512f=off"}},
+		},
+		Rule:           "one case = one seeded host/renter session over the simulated connection: 2-6 operations out of {stream a sector or a shorter leaf-aligned file into ReaderRoot / ReadSectorRoot / ReadSector; read a leaf range with BuildProof into the streaming RangeProofVerifier; single-leaf proof from the cached-subtree builder BuildSectorProof; sector-roots range proof; append proof; free-sectors proof; rhp/v2 swap+trim diff proof}, with tape-chosen chunking of the stream and at most one in-flight fault (bit flip, truncate-and-close). Oracles: RefMerkle (plain recursive RFC 6962 tree over 64-byte leaves) gives every root, the range proof by definition and the audit path (ConvertProofOrdering); an honest proof must verify, what arrives changed must be rejected and what is accepted must be unchanged; every single-element corruption (proof hash bit, datum bit, root bit, shifted range, proof one hash short / long, other freed index) must be rejected. The batch is run a second time with the assembly hash kernels disabled (GODEBUG=cpu.avx2=off). Non-trivial = at least one operation verified.",
+		Assumptions:    e2Assumptions,
+		Components:     e2Components,
+		ExpectCounters: []string{"merkle.sector-root", "merkle.read-range", "merkle.verify-leaf", "merkle.sector-roots", "merkle.append", "merkle.free", "merkle.diff", "merkle.corruptions", "merkle.tamper-detected", "fault.bitflip", "fault.truncate-close"},
+	},
 	"C19": {
 		Parts:          []part{{Engine: "E2", Pkg: "sess", Profile: "C19", QuickRuns: 4000, QuickBudgetS: 40, ThoroughRuns: 120000, ThoroughBudgetS: 900}},
 		Rule:           "one case = one seeded session of two endpoint tasks over the simulated connection inside a synctest bubble: RHP4 request/response scripts (every object type filled by reflection from the tape, error responses, follow-up messages, objects at MaxSectorBatchSize / MaxAccountBatchSize, free-sector proofs from the real builder for valid requests, over-limit objects), RHP2 encrypted transport (handshake, every ProtocolObject, RawResponse/VerifyTag path, wrong host key, over-limit), RHP3 over the real mux, gateway Dial/Accept with matching and mismatching headers and every gateway.Object; per session one chunking mode (all / random / small / byte) and at most one fault (bit flip at an offset, truncate-and-close, stall until deadlines fire). Oracles: what is read equals what was written, in order; valid messages within limits are readable; reads never consume more than the receiver's limit; error responses arrive as that error; an RHP2 frame with a flipped bit is never accepted; mismatching handshakes are refused. Non-trivial = bytes were delivered.",
